@@ -53,7 +53,8 @@ ASSUMPTIONS = [
     "PostgreSQL / MySQL: call-log level only (recording DBAPI; committed state derived by C23's _TxSim); dialect.default_isolation_level is preset by the harness because the recording engine skips initialize()",
     "known finding excluded by construction and pinned: a Connection.commit() that fails at the DBAPI followed by close() returns the connection with its transaction open "
     "(live: provoked with a SHARED lock held by a second sqlite3 connection -> SQLITE_BUSY)",
-    "known finding excluded by construction and pinned: with an AUTOCOMMIT engine default, a per-connection isolation level is not restored on return (only the autocommit knob is)",
+    "known finding excluded by construction and pinned, narrowed to exactly its scope: with an AUTOCOMMIT engine default, a per-connection isolation level OTHER than the dialect's own default "
+    "level is not restored on return (SQLite, MySQL; psycopg2 has a single knob and is not affected). AUTOCOMMIT engine default + the dialect default level / AUTOCOMMIT itself is generated",
     "reference model in checks/c24.py is trusted",
 ]
 
@@ -118,6 +119,12 @@ class _Live:
     def iso_default(self):
         d = self.cfg["default_iso"]
         return {"read_uncommitted": 1 if d == "READ UNCOMMITTED" else 0, "isolation_level_attr": None if d == "AUTOCOMMIT" else ""}
+
+    def dialect_default(self):
+        return self.eng.dialect.default_isolation_level
+
+    def finding_scope(self):
+        return True
 
     def problems(self):
         return []
@@ -200,15 +207,18 @@ class _Rec:
         kw = dict(poolclass=_pool_cls(cfg["pool"]), pool_reset_on_return=None if cfg["reset"] in (None, "custom") else cfg["reset"])
         if cfg["pool"] == "queue":
             kw.update(pool_size=cfg["size"], max_overflow=0)
-        if cfg["default_iso"] == "AUTOCOMMIT":
-            kw["isolation_level"] = "AUTOCOMMIT"
+        if cfg["default_iso"]:
+            kw["isolation_level"] = cfg["default_iso"]
         if cfg.get("skip_ac_rb"):
             kw["skip_autocommit_rollback"] = True
         url = "postgresql+psycopg2://u:p@h/d" if flavour == "pg" else "mysql+pymysql://u:p@h/d"
         self.eng = sa.create_engine(url, creator=creator, _initialize=False, **kw)
         self.default_name = "READ COMMITTED" if flavour == "pg" else "REPEATABLE READ"
+        if cfg["default_iso"] not in (None, "AUTOCOMMIT"):
+            # a real first connect detects the level AFTER the engine-wide on-connect hook has set it
+            self.default_name = cfg["default_iso"]
         self.eng.dialect.default_isolation_level = self.default_name
-        if cfg["default_iso"] == "AUTOCOMMIT":
+        if cfg["default_iso"]:
             # _initialize=False skipped the builtin on-connect hook: install it the way create_engine would
             fn = self.eng.dialect._builtin_onconnect()
             if fn is not None:
@@ -262,9 +272,16 @@ class _Rec:
     def iso_default(self):
         d = self.eng.dialect
         if self.flavour == "pg":
-            lvl = d._isolation_lookup["AUTOCOMMIT" if self.cfg["default_iso"] == "AUTOCOMMIT" else self.default_name]
+            lvl = d._isolation_lookup[self.cfg["default_iso"] or self.default_name]
             return {"level": lvl, "autocommit": None}
         return {"level": self.default_name, "autocommit": self.cfg["default_iso"] == "AUTOCOMMIT"}
+
+    def dialect_default(self):
+        return self.default_name
+
+    def finding_scope(self):
+        """psycopg2 has ONE knob (set_isolation_level): restoring AUTOCOMMIT restores everything; MySQL keeps the session level"""
+        return self.flavour != "pg"
 
     def iso_matches(self, got):
         exp = self.iso_default()
@@ -319,6 +336,7 @@ class _Run:
         self.nontrivial = False
         self.pinned = bool(case.get("pinned"))
         self.excluded = []
+        self.infos = []
         self.last_iso = {}
         self.failed_commit_keys = set()
         if self.reset == "custom":
@@ -328,6 +346,10 @@ class _Run:
     def _custom_reset(dbapi_connection, record, reset_state):
         # documented custom scheme (pooling.rst "Custom Reset-on-Return Schemes")
         dbapi_connection.rollback()
+
+    def _finding_applies(self, iso):
+        return (self.cfg["default_iso"] == "AUTOCOMMIT" and iso not in (None, "AUTOCOMMIT") and iso != self.b.dialect_default()
+                and self.b.finding_scope())
 
     def eff_reset(self):
         return "rollback" if self.reset == "custom" else self.reset
@@ -376,7 +398,7 @@ class _Run:
         if not self.dirty_iso.get(key):
             got = b.iso_state(raw)
             ok = b.iso_matches(got) if hasattr(b, "iso_matches") else got == b.iso_default()
-            if not ok and self.cfg["default_iso"] == "AUTOCOMMIT" and self.last_iso.get(key) not in (None, "AUTOCOMMIT"):
+            if not ok and self._finding_applies(self.last_iso.get(key)):
                 raise Violation("C24/isolation-not-reset/autocommit-default-keeps-previous-level", f"{t}: engine default is AUTOCOMMIT, the previous user of this DBAPI connection "
                                 f"selected {self.last_iso[key]}; on return only the autocommit knob was restored: {got} != {b.iso_default()}", observed=got, expected=b.iso_default())
             if not ok:
@@ -395,9 +417,16 @@ class _Run:
         iso = co.get("iso")
         if kind == "raw" or (iso == "AUTOCOMMIT" and not self.b.legacy and self.b.name == "live"):
             iso = None
-        if iso not in (None, "AUTOCOMMIT") and self.cfg["default_iso"] == "AUTOCOMMIT" and not self.pinned:
-            # known finding: resetting to an AUTOCOMMIT engine default only flips the autocommit knob; the isolation
-            # level chosen by this user stays on the DBAPI connection
+        if self.reset is None and self.cfg["default_iso"] == "AUTOCOMMIT" and iso not in (None, "AUTOCOMMIT") and self.b.name == "live":
+            # reset_on_return=None promises nothing, and restoring pysqlite's isolation_level=None implicitly COMMITs whatever the
+            # un-reset transaction holds (driver behaviour): kept out of the domain
+            self.infos.append("reset None + AUTOCOMMIT engine default + transactional per-connection level on pysqlite dropped (driver commits on isolation_level=None)")
+            iso = None
+        if self.cfg["default_iso"] == "AUTOCOMMIT" and iso is not None:
+            self.cls.add("ac-default+iso:" + ("dialect-default" if iso == self.b.dialect_default() else iso))
+        if self._finding_applies(iso) and not self.pinned:
+            # known finding (exactly): resetting to an AUTOCOMMIT engine default only flips the autocommit knob; a per-connection
+            # level OTHER than the dialect's own default stays on the DBAPI connection (not psycopg2: one knob)
             self.excluded.append("per-connection isolation level under an AUTOCOMMIT engine default (known finding: level not restored on return)")
             iso = None
         if kind == "conn":
@@ -428,7 +457,11 @@ class _Run:
         dml_in_txn = open_txn
         sps = 0
         conn_txn = False  # the Connection object holds a Transaction (autobegin / begin); its commit()/rollback() are no-ops otherwise
-        for a in co["acts"]:
+        acts = list(co["acts"])
+        if autocommit and self.b.name != "live":
+            acts = [a for a in acts if a != "w"]  # the recording DBAPI has no driver-level autocommit to observe
+        self._acts = acts
+        for a in acts:
             if kind == "conn" and a in ("w", "sel", "begin") or (a == "sp" and kind == "conn" and not autocommit and (dml_in_txn or not self.b.legacy)):
                 conn_txn = True
             if a == "w":
@@ -646,7 +679,7 @@ class _Run:
     def _conn_had_txn(self, co, autocommit):
         """did the Connection object itself hold a Transaction at the end (autobegin by any execute / begin / savepoint)?"""
         had = False
-        for a in co["acts"]:
+        for a in self._acts:
             if a in ("w", "sel", "begin"):
                 had = True
             elif a == "sp" and not autocommit:
@@ -691,6 +724,8 @@ def _check(case, ctx, make_backend):
                 ctx.note(case, run.nontrivial, classes=sorted(classes))
                 for r in run.excluded:
                     ctx.exclude(r)
+                for r in run.infos:
+                    ctx.info(r)
     finally:
         b.close()
 
@@ -714,7 +749,7 @@ def _cfgs(live):
         st.sampled_from(POOLS),
         st.integers(1, 2),
         st.sampled_from(["rollback", "rollback", "commit", None, None, "custom"]),
-        st.sampled_from([None, None, None, "READ UNCOMMITTED", "AUTOCOMMIT"] if live else [None, None, "AUTOCOMMIT"]),
+        st.sampled_from([None, None, "READ UNCOMMITTED", "SERIALIZABLE", "AUTOCOMMIT", "AUTOCOMMIT"] if live else [None, None, "AUTOCOMMIT", "AUTOCOMMIT", "SERIALIZABLE"]),
         st.sampled_from(["legacy", "legacy", "nonlegacy"]) if live else st.just("rec"),
         st.booleans(),
     )
@@ -728,7 +763,9 @@ def _fix_cfg(cfg):
 
 
 def _checkouts(live):
-    isos = [None, None, None, "AUTOCOMMIT", "READ UNCOMMITTED", "SERIALIZABLE"] if live else [None, None, "AUTOCOMMIT", "SERIALIZABLE", "READ COMMITTED"]
+    # the FULL set of levels each dialect supports, including the dialect's own default level and AUTOCOMMIT
+    isos = ([None, None, "AUTOCOMMIT", "READ UNCOMMITTED", "SERIALIZABLE", "SERIALIZABLE"] if live
+            else [None, None, "AUTOCOMMIT", "SERIALIZABLE", "READ COMMITTED", "REPEATABLE READ", "READ UNCOMMITTED"])
     one = st.builds(
         lambda user, iso, acts, end: {"user": user, "iso": iso, "acts": acts, "end": end},
         st.sampled_from(["conn", "conn", "raw"]),
